@@ -267,3 +267,16 @@ Proof.
   - right. rewrite Es. reflexivity.
   - left. destruct (H1 _ Hi) as [->|[<-|[]]]; reflexivity.
 Qed.
+
+(* what the dynamic legs assert: if the old and the new list of the resource give the same
+   verdict (any function of the list the decision was computed from), so does every decision that
+   races the one update *)
+Lemma switch_equal_verdict : forall (V : Type) (verdict : list rule -> V) (v : V) m ds before upd after t r seen,
+  wf_rm m -> Forall (fun rd => snd rd = DIdle) ds ->
+  only_dec before -> only_dec after ->
+  nth_error (snd (fst (srun (m, ds) [m] (before ++ upd :: after)))) t = Some (r, DDone seen) ->
+  verdict (lookup m r) = v -> verdict (lookup (rm_step m upd) r) = v -> verdict seen = v.
+Proof.
+  intros V verdict v m ds before upd after t r seen Hwf Hds Hb Ha Hn Ho Hnw.
+  destruct (switch_old_or_new m ds before upd after t r seen Hwf Hds Hb Ha Hn) as [E|E]; rewrite E; assumption.
+Qed.
